@@ -4,6 +4,7 @@ import (
 	"bytes"
 	"encoding/hex"
 	"fmt"
+	"time"
 
 	"github.com/brocaar/lorawan"
 
@@ -464,6 +465,35 @@ func runC06(r *engine.Run) {
 			}
 		} else {
 			c.Outcome("cflist/7-masks(library API holds 6; encode not judged)")
+		}
+	})
+	// DeviceTimeAns for durations between two 1/256 s steps: the bytes denote (by the
+	// specification's reading: seconds little-endian, then the 1/256 s fraction) an instant
+	// less than one step away from the value encoded
+	r.PartDims("encode/DeviceTimeAns/between-wire-steps", []string{"seconds:6", "fraction step:0..255", "offset inside the step:7"}, 6*256, func(c *engine.Case) {
+		secs := []uint64{0, 1, 59, 1234567, 1<<32 - 2, 1<<32 - 1}
+		sec, frac := secs[c.Index/256], c.Index%256
+		const step = 3906250
+		for _, off := range []int64{0, 1, step/2 - 1, step / 2, step/2 + 1, step - 2, step - 1} {
+			c.Eval()
+			d := time.Duration(sec)*time.Second + time.Duration(int64(frac)*step+off)
+			if d < 0 {
+				continue
+			}
+			b, err := lorawan.DeviceTimeAnsPayload{TimeSinceGPSEpoch: d}.MarshalBinary()
+			if err != nil || len(b) != 5 {
+				c.Outcome("devicetime/between-steps/refused")
+				continue
+			}
+			c.NonTrivial()
+			wire := time.Duration(uint64(b[0])|uint64(b[1])<<8|uint64(b[2])<<16|uint64(b[3])<<24)*time.Second + time.Duration(b[4])*step
+			diff := wire - d
+			if diff < 0 {
+				diff = -diff
+			}
+			if diff >= step {
+				c.Fail("encode/DeviceTimeAns/fraction", fmt.Sprintf("%v encodes to %x, which the specification reads as %v (%v away; one step is %v)", d, b, wire, diff, time.Duration(step)), nil)
+			}
 		}
 	})
 	// every zero / non-zero pattern of the seven mask slots x two non-zero fillers
